@@ -534,7 +534,7 @@ theorem stepCore_allocate_liveOK {cfg : Cfg} {g g' : GState} {L : Layout} {zeroe
     (h : stepCore cfg g (.allocate L zeroed via) = .ok (g', out)) : LiveOK cfg g'.s := by
   obtain ⟨s1, r1, ha, hcase⟩ := stepCore_allocate_inv h
   rcases hcase with ⟨e, rfl, rfl⟩ | ⟨p, s2, rfl, hz, rfl⟩
-  · -- the allocation was refused: a later chunk may have become current, nothing else happened
+  · -- the allocation was refused: the original chunk stays current (fix c107ca6), later chunks may have been reset
     exact alloc_error_liveOK hl ha
   · obtain ⟨ho, hal⟩ := alloc_allocOutcome hl hwf hfr hp hv hvslow ha
     simp only
